@@ -693,6 +693,64 @@ MUTANTS = {
         E("qkeras/quantizers.py",
           "        \"relu_upper_bound=\" + str(self.relu_upper_bound),\n",
           "        \"relu_upper_bound=\" + str(int(self.relu_upper_bound)),\n")]),
+    # --- round 15 ---------------------------------------------------------
+    # the depthwise arm of model_quantize runs the default activation
+    # conversion also after a configured activation quantizer
+    "m124_depthwise_arm_default_activation_always": dict(expect=["C12"],
+                                                         edits=[
+        E("qkeras/utils.py",
+          "      quantizer = get_config(quantizer_config, layer, q_name,\n"
+          "                             \"activation_quantizer\",)\n\n"
+          "      if quantizer:\n"
+          "        layer_config[\"activation\"] = quantizer\n"
+          "      else:\n"
+          "        quantize_activation(layer_config, activation_bits)\n",
+          "      quantizer = get_config(quantizer_config, layer, q_name,\n"
+          "                             \"activation_quantizer\",)\n\n"
+          "      if quantizer:\n"
+          "        layer_config[\"activation\"] = quantizer\n"
+          "      quantize_activation(layer_config, activation_bits)\n")]),
+    "m125_depthwise_transpose_drops_placeholders": dict(expect=["C14"],
+                                                        edits=[
+        E("qkeras/qdepthwise_conv2d_transpose.py",
+          "    return [\n"
+          "        self.depthwise_kernel_quantizer_internal,\n"
+          "        self.bias_quantizer_internal,\n"
+          "        self.depthwise_activation,\n"
+          "    ]\n",
+          "    return [q for q in (\n"
+          "        self.depthwise_kernel_quantizer_internal,\n"
+          "        self.bias_quantizer_internal,\n"
+          "        self.depthwise_activation,\n"
+          "    ) if q is not None]\n")]),
+    "m126_quantized_conv_folded_without_arm": dict(expect=["C15"], edits=[
+        E("qkeras/utils.py",
+          "      is_foldable = layer.__class__.__name__ in [\n"
+          "          \"Conv2D\", \"DepthwiseConv2D\"\n"
+          "      ] and is_single and followed_by_bn\n",
+          "      is_foldable = layer.__class__.__name__ in [\n"
+          "          \"Conv2D\", \"DepthwiseConv2D\", \"QConv2D\"\n"
+          "      ] and is_single and followed_by_bn\n")]),
+    "m127_energy_reads_io_layers_by_name": dict(expect=["C19"], edits=[
+        E("qkeras/qtools/qenergy/qenergy.py",
+          "    is_input_layer = layer in input_layers\n",
+          "    is_input_layer = layer.name in input_layers\n")]),
+    # stochastic_binary omits the sibling's default temperature
+    "m128_stochastic_binary_printer_siblings_default": dict(expect=["C10"],
+                                                            edits=[
+        E("qkeras/quantizers.py",
+          "    if self.temperature != 6.0:\n"
+          "      flags.append(\"temperature=\" + str(self.temperature))\n"
+          "    if not self.use_real_sigmoid:\n"
+          "      flags.append(\"use_real_sigmoid=\" + "
+          "str(int(self.use_real_sigmoid)))\n"
+          "    return \"stochastic_binary(\"",
+          "    if self.temperature != 8.0:\n"
+          "      flags.append(\"temperature=\" + str(self.temperature))\n"
+          "    if not self.use_real_sigmoid:\n"
+          "      flags.append(\"use_real_sigmoid=\" + "
+          "str(int(self.use_real_sigmoid)))\n"
+          "    return \"stochastic_binary(\"")]),
     "m95_po2_operand_converted_in_place": dict(expect=["C17"], edits=[
         E(QO + "adder_factory.py",
           "    local_quantizer_1 = copy.deepcopy(quantizer_1)\n"
@@ -1074,6 +1132,57 @@ BENIGN = {
                                       edits=os.path.join(
         os.path.dirname(os.path.abspath(__file__)), "benign_patches",
         "b45_po2_max_value_setters.diff")),
+    # --- round 15 ---------------------------------------------------------
+    "b61_foldable_classes_in_a_tuple": dict(props=["C15"], edits=[
+        E("qkeras/utils.py",
+          "      is_foldable = layer.__class__.__name__ in [\n"
+          "          \"Conv2D\", \"DepthwiseConv2D\"\n"
+          "      ] and is_single and followed_by_bn\n",
+          "      is_foldable = is_single and followed_by_bn and (\n"
+          "          layer.__class__.__name__ in (\"Conv2D\", "
+          "\"DepthwiseConv2D\"))\n")]),
+    "b62_io_layer_test_by_identity": dict(props=["C19"], edits=[
+        E("qkeras/qtools/qenergy/qenergy.py",
+          "    is_input_layer = layer in input_layers\n",
+          "    is_input_layer = any(layer is l for l in input_layers)\n")]),
+    "b63_quantizer_list_through_a_local": dict(props=["C14", "C11"], edits=[
+        E("qkeras/qdepthwise_conv2d_transpose.py",
+          "    return [\n"
+          "        self.depthwise_kernel_quantizer_internal,\n"
+          "        self.bias_quantizer_internal,\n"
+          "        self.depthwise_activation,\n"
+          "    ]\n",
+          "    quantizers = [self.depthwise_kernel_quantizer_internal]\n"
+          "    quantizers.append(self.bias_quantizer_internal)\n"
+          "    quantizers.append(self.depthwise_activation)\n"
+          "    return list(quantizers)\n")]),
+    "b64_dense_arm_activation_test_inverted": dict(props=["C12"], edits=[
+        E("qkeras/utils.py",
+          "      quantizer = get_config(\n"
+          "          quantizer_config, layer, q_name, "
+          "\"activation_quantizer\")\n\n"
+          "      if quantizer:\n"
+          "        layer_config[\"activation\"] = quantizer\n"
+          "      else:\n"
+          "        quantize_activation(layer_config, activation_bits)\n\n"
+          "    elif layer[\"class_name\"] == \"DepthwiseConv2D\":\n",
+          "      quantizer = get_config(\n"
+          "          quantizer_config, layer, q_name, "
+          "\"activation_quantizer\")\n\n"
+          "      if not quantizer:\n"
+          "        quantize_activation(layer_config, activation_bits)\n"
+          "      else:\n"
+          "        layer_config[\"activation\"] = quantizer\n\n"
+          "    elif layer[\"class_name\"] == \"DepthwiseConv2D\":\n")]),
+    # a log2 helper WITHOUT an additive epsilon on the exponent path
+    "b65_clip_po2_log2_helper": dict(props=["C03", "C08"], edits=[
+        E("qkeras/quantizers.py",
+          "def _get_scaling_axis(scale_axis: Any, len_axis: int) -> "
+          "List[int]:\n",
+          "def _plain_log2(v):\n"
+          "  return K.log(v) / np.log(2.0)\n\n\n"
+          "def _get_scaling_axis(scale_axis: Any, len_axis: int) -> "
+          "List[int]:\n")]),
     # --- round 14 ---------------------------------------------------------
     "b55_channels_first_axes_by_slicing": dict(props=["C04", "C05"], edits=[
         E("qkeras/quantizers.py",
